@@ -247,3 +247,13 @@ FACETS = [
     Facet('torch/stabilizer_state', f_stab_filter, strategy=lambda t: st_stab('torch', 4, ['list', 'strings']),
           examples={'quick': 200, 'thorough': 8000}, backend='torch'),
 ]
+
+
+def f_export_large(case):
+    """exported density matrix (Pauli expansion) of states with many active stabilizers: equals the reference expansion of the stabilizer group."""
+    from checks.c19 import f_density_large
+    return f_density_large(case)
+
+
+from checks.c19 import st_density_large
+FACETS.append(Facet('np/density-export-large-N', f_export_large, strategy=lambda t: st_density_large(), examples={'quick': 24, 'thorough': 800}, shards={'quick': 2, 'thorough': 8}))
